@@ -10,6 +10,7 @@ package vh
 import (
 	"bytes"
 	"fmt"
+	"github.com/semihalev/twig"
 	"strings"
 	"testing"
 
@@ -394,6 +395,11 @@ func checkC04(c C04Case) error {
 	}
 	if sp.Count() != 0 {
 		return fmt.Errorf("something inside a comment or verbatim body was evaluated: spy calls %v; source %s", sp.Log, q(src))
+	}
+	// the same bytes reach a writer that is not an in-memory buffer, whole or as a clean prefix
+	mk := func() *twig.Engine { e := newEngine(map[string]string{"main": src}); NewSpies().Install(e); return e }
+	if err := writersAgree(mk, "main", ctx, r); err != nil {
+		return fmt.Errorf("%v; source %s", err, q(src))
 	}
 	// (2) verbatim bodies with tag syntax: same output under three contexts, no context
 	// data, no evaluation, and the rest of the template still exact
